@@ -136,7 +136,8 @@ class Check:
             if not c["reported"]:
                 self.broken.append("positive control for %s was not reported (%s)" % (c["rule"], c["what"]))
 
-        outdir = os.path.join(VERIF, "out", self.pid)
+        mutant = os.environ.get("VERIF_MUTANT_RUN")
+        outdir = os.path.join(VERIF, "out", self.pid + ("-mutant-" + mutant if mutant else ""))
         os.makedirs(outdir, exist_ok=True)
         for f in os.listdir(outdir):
             if f.startswith("violation-"):
@@ -171,7 +172,8 @@ class Check:
             code = 1 if code == 0 else code
         if new and code == 2:
             code = 1
-        self._write_evidence(counts, len(new), len(listed))
+        if not mutant:
+            self._write_evidence(counts, len(new), len(listed))
         if code == 0:
             print("OK property=%s" % self.pid)
         return code
